@@ -492,6 +492,31 @@ pub fn scenario(id: u64, seed: u64, thorough: bool, family: &str) -> Vec<Value> 
         // the same type is browsed a second time while the first search is open (the new channel takes over)
         run.at(t_browse + r.range(200, 5000), Act::Browse(browsed[0].clone(), false));
     }
+    // directed opening (every fifth scenario): two instances of a browsed type that nothing else in the scenario touches are
+    // first heard of through their PTR alone, a few milliseconds apart; one is then announced in full, the other stays silent
+    // (nobody answers for it) - the daemon owes it its follow-up queries all the same, whatever happens to its neighbour
+    if id % 5 == 2 {
+        let base = run.remotes[0].clone();
+        let tyn = Name::from_escaped(&browsed[0]);
+        let mk = |lab: &str, hostlab: &str| -> Remote {
+            let mut x = base.clone();
+            let mut il = vec![lab.as_bytes().to_vec()];
+            il.extend(tyn.0.clone());
+            x.ty = tyn.clone();
+            x.sub = None;
+            x.inst = Name(il);
+            x.host = Name(vec![hostlab.as_bytes().to_vec(), b"local".to_vec()]);
+            x.ttl_host = 120;
+            x.ttl_other = 120;
+            x
+        };
+        let (a, b) = (mk("quiet-one", "quiet1"), mk("quiet-two", "quiet2"));
+        let t0 = t_browse + 300;
+        run.at(t0, Act::Deliver { ifidx: a.ifidx, src: a.src, msg: wire::response(vec![a.ptr()]), compress: true });
+        run.at(t0 + 40, Act::Deliver { ifidx: b.ifidx, src: b.src, msg: wire::response(vec![b.ptr()]), compress: true });
+        let rest: Vec<RR> = vec![b.srv(), b.txtrr()].into_iter().chain(b.addr_rrs()).collect();
+        run.at(t0 + 240, Act::Deliver { ifidx: b.ifidx, src: b.src, msg: wire::response(rest), compress: true });
+    }
     // announcements, updates, goodbyes over the horizon
     let horizon: u64 = if thorough { 120_000 } else { 45_000 };
     let mut t = r.below(2500);
@@ -647,6 +672,8 @@ pub fn scenario_resolve_p(id: u64, seed: u64, thorough: bool, policy_d: bool) ->
             2 => Some(r.range(3000, 30_000)),
             _ => None,
         };
+        // every third scenario: a deadline that falls exactly on an instant of the query schedule (1, 3, 7, 15 s after the call)
+        let to = if id % 3 == 0 && to.is_some() { Some([1000u64, 3000, 7000, 15_000][((id / 3) % 4) as usize]) } else { to };
         let asked = mixcase(&mut r, h);
         run.at(t0, Act::Resolve(asked.clone(), to));
         if r.chance(1, 4) {
@@ -690,8 +717,12 @@ pub fn scenario_resolve_p(id: u64, seed: u64, thorough: bool, policy_d: bool) ->
                     }
                 }
                 6 => {
-                    // an address for another host in the same packet, and as additional
+                    // an address for another host in the same packet, and as additional; as in an ordinary announcement of a
+                    // service on that host, a PTR of a type nobody browses comes first (the packet is for us all the same:
+                    // it answers the host name being resolved)
                     let mut m = wire::response(mk(ttl, &addrs[..1]));
+                    m.answers.insert(0, RR::new(Name::from_labels(&["_other", "_udp", "local"]), false, 4500,
+                        RData::Ptr(Name::from_labels(&["thing", "_other", "_udp", "local"]))));
                     m.additionals.push(RR::new(Name::from_labels(&["other", "local"]), true, 120, RData::A([10, 1, 1, 1])));
                     run.at(t, Act::Deliver { ifidx: ifc.index, src, msg: m, compress: true });
                 }
